@@ -217,7 +217,18 @@ def _array_build_ok(pre, post):
 def _array_build_bad(pre, post):
     n = _param_int(pre, 'count')
     range_err = t.eq(post.exc.cls, I(post.eng.src.exc_code['RangeError']))
-    return [('negative-count-is-RangeError', t.implies(t.lt(n, t.ZERO), range_err), ('C03', 'C06'))] + list(generic_raise(pre, post))
+    out = [('negative-count-is-RangeError', t.implies(t.lt(n, t.ZERO), range_err), ('C03', 'C06'))] + list(generic_raise(pre, post))
+    if pre.obj('stream').model == 'adv':
+        return out
+    kk = post.st.ghost.get('loop_k')
+    ghost_mode = getattr(post.eng.models, 'ghost_mode', False)
+    if kk is None or ghost_mode:
+        kk = fresh('failed_element', t.INT)
+    F = abfold(pre, t.add(kk, t.ONE))
+    out.append(('a-failure-is-a-bad-count-or-the-failure-of-some-element-build',
+                t.or_(t.lt(n, t.ZERO), t.ne(t.app('dyn_len', t.INT, pre['obj'].t), n), t.and_(t.le(t.ZERO, kk), t.lt(kk, n), t.not_(bs('bs_ok', F)))), T + ('C02',),
+                [('def', _bunfold(pre, t.add(kk, t.ONE)))]))
+    return out
 
 
 def register_array_build(src):
